@@ -179,6 +179,72 @@ func c09EntryFacts(l *lean, amb *ast.File) {
 	}
 	l.def("networkEventFatalUnlessDatabaseError", "Bool", map[bool]string{true: "true", false: "false"}[fatalUnlessDb], fatalUnlessDb)
 
+	// handleUpdateDIDDocument: the head of the loop over transaction.Previous() — what happens with the lookup's error and
+	// with "no version": (condition, what the branch does) in source order, up to the first statement that is not an `if`
+	var loopHead []string
+	if fd := c09Method(amb, "ambassador", "handleUpdateDIDDocument"); fd != nil {
+		done := false
+		ast.Inspect(fd, func(n ast.Node) bool {
+			rs, ok := n.(*ast.RangeStmt)
+			if done || !ok || c09Src(rs.X) != "transaction.Previous()" {
+				return true
+			}
+			done = true
+			for i, st := range rs.Body.List {
+				if i == 0 {
+					loopHead = append(loopHead, c09Src(st))
+					continue
+				}
+				is, ok := st.(*ast.IfStmt)
+				if !ok || is.Init != nil || is.Else != nil || len(is.Body.List) != 1 {
+					break
+				}
+				what := c09Src(is.Body.List[0])
+				if r, ok := is.Body.List[0].(*ast.ReturnStmt); ok && len(r.Results) == 1 {
+					what = "return error"
+					if !strings.Contains(c09Src(r.Results[0]), "err") {
+						what = "return " + c09Src(r.Results[0])
+					}
+				}
+				loopHead = append(loopHead, c09Src(is.Cond)+" => "+what)
+				if c09Src(is.Cond) == "currentDIDDocument == nil" {
+					break
+				}
+			}
+			return false
+		})
+	}
+	l.def("updateLookupLoopHead", "List String", leanStrList(loopHead), loopHead)
+
+	// basicServiceValidator.Validate: the key the seen-set of service types is LOOKED UP with and the key it RECORDS
+	look, rec := "", ""
+	nLook, nRec := 0, 0
+	_, vals := parseFile("vdr/didnuts/validators.go")
+	if fd := c09Method(vals, "basicServiceValidator", "Validate"); fd != nil {
+		ast.Inspect(fd, func(n ast.Node) bool {
+			switch t := n.(type) {
+			case *ast.IfStmt:
+				if ix, ok := t.Cond.(*ast.IndexExpr); ok && c09Src(ix.X) == "knownServiceTypes" {
+					look = c09Src(ix.Index)
+					nLook++
+				}
+			case *ast.AssignStmt:
+				if len(t.Lhs) == 1 {
+					if ix, ok := t.Lhs[0].(*ast.IndexExpr); ok && c09Src(ix.X) == "knownServiceTypes" {
+						rec = c09Src(ix.Index)
+						nRec++
+					}
+				}
+			}
+			return true
+		})
+	}
+	if nLook != 1 || nRec != 1 {
+		look, rec = "<"+strconv.Itoa(nLook)+" lookups>", "<"+strconv.Itoa(nRec)+" records>"
+	}
+	l.def("serviceTypeLookupKey", "String", strconv.Quote(look), look)
+	l.def("serviceTypeRecordKey", "String", strconv.Quote(rec), rec)
+
 	// notifier.Notify: the filter loop is the first statement, the receiver is reached only after it
 	filtersFirst := false
 	if fd := c09Method(notif, "notifier", "Notify"); fd != nil && len(fd.Body.List) >= 2 {
